@@ -447,6 +447,7 @@ func c09Exec(c *core.Ctx, p *c09Pair, prior []byte, iei uint8, ln uint16, arg []
 		val = argBytes
 	}
 	wantStore := c09Insert(prior, bits, val)
+	c.Distinct(core.Hash64(name, prior, iei, ln, arg), !bytes.Equal(wantStore, prior))
 	if len(after) != len(prior) {
 		failf("set-resizes", "Set(%x) changes the storage length %d -> %d", arg, len(prior), len(after))
 		return
@@ -955,7 +956,8 @@ func init() {
 			"Buffer-backed elements are given a Buffer that covers the annotated octets (SetLen is the documented allocator)",
 		},
 		Finish: func(m *core.Merged, cov map[string]any) {
-			cov["distinct_nontrivial"] = m.Counters["pairs"]
+			finishDistinct("distinct by (accessor, prior contents, Iei, Len, argument); non-trivial = the Set has to change at least one bit of the storage")(m, cov)
+			cov["accessor_pairs"] = m.Counters["pairs"]
 		},
 	})
 }
